@@ -35,6 +35,7 @@ def main():
     ap.add_argument('--revert-commit', default=None)
     ap.add_argument('--seed', default='1')
     ap.add_argument('--cases', default=None)
+    ap.add_argument('--family', default=None)
     ns = ap.parse_args()
     scratch = tempfile.mkdtemp(prefix='sfcm_', dir='/var/tmp')
     copy = os.path.join(scratch, 'repo')
@@ -70,6 +71,8 @@ def main():
             cmd = [sys.executable, os.path.join(HERE, 'run_check.py'), pid, '--tier', ns.tier, '--no-evidence']
             if ns.cases:
                 cmd += ['--cases', ns.cases]
+            if ns.family:
+                cmd += ['--family', ns.family]
             rc, out = sh(cmd, cwd=HERE, env=env)
             dt = time.time() - t0
             lines = [l for l in out.split('\n') if l.startswith(('violation bucket', 'HARNESS', 'VIOLATION'))]
